@@ -51,7 +51,7 @@ impl Tx {
     }
 }
 
-const DB_COINS: u64 = 6;
+const DB_COINS: u64 = 10;
 
 fn db_coin(k: u64) -> (u64, u64, u64, u64, u64) {
     // (tx id, index, owner, amount, asset)
@@ -60,7 +60,7 @@ fn db_coin(k: u64) -> (u64, u64, u64, u64, u64) {
 
 fn coin_input(rng: &mut Rng, txid: u64, idx: u64, owner: u64, amount: u64, asset: u64) -> T {
     // rarely disagree with the spent output
-    let (owner, amount, asset) = match rng.below(40) {
+    let (owner, amount, asset) = match rng.below(90) {
         0 => (owner + 1, amount, asset),
         1 => (owner, amount + 1, asset),
         2 => (owner, amount, asset + 1),
@@ -92,34 +92,53 @@ fn gen_tx(rng: &mut Rng, id: u64, earlier: &[Tx]) -> Tx {
     }
     let mut ins = vec![];
     let n_in = rng.range(1, 3);
-    for _ in 0..n_in {
-        match rng.below(20) {
-            0..=8 => {
+    for k in 0..n_in {
+        // the first input of every second transaction spends an output of a recent transaction
+        let want_parent = !earlier.is_empty() && (rng.below(100) < 38 || (k == 0 && rng.chance(1, 4)));
+        if want_parent {
+            let lo = earlier.len().saturating_sub(4);
+            let e = &earlier[rng.range(lo as u64, earlier.len() as u64 - 1) as usize];
+            let coin_outs: Vec<usize> = e
+                .outs
+                .iter()
+                .enumerate()
+                .filter(|(_, o)| o.as_l()[0].as_i() == 0)
+                .map(|(i, _)| i)
+                .collect();
+            if e.outs.is_empty() {
+                let (t, i, o, a, s) = db_coin(rng.below(DB_COINS));
+                ins.push(coin_input(rng, t, i, o, a, s));
+            } else {
+                // mostly a coin output; sometimes a change / variable / contract output
+                let idx = if !coin_outs.is_empty() && !rng.chance(1, 10) {
+                    *rng.pick(&coin_outs) as u64
+                } else {
+                    rng.below(e.outs.len() as u64)
+                };
+                let out = e.outs[idx as usize].as_l();
+                let (o, a, s) = if out.len() == 4 {
+                    (out[1].as_u64(), out[2].as_u64(), out[3].as_u64())
+                } else {
+                    (1, 10, 1)
+                };
+                ins.push(coin_input(rng, e.id, idx, o, a, s));
+            }
+            continue;
+        }
+        match rng.below(100) {
+            0..=69 => {
                 let (t, i, o, a, s) = db_coin(rng.below(DB_COINS));
                 ins.push(coin_input(rng, t, i, o, a, s));
             }
-            9..=13 if !earlier.is_empty() => {
-                let e = rng.pick(earlier);
-                if e.outs.is_empty() {
-                    let (t, i, o, a, s) = db_coin(rng.below(DB_COINS));
-                    ins.push(coin_input(rng, t, i, o, a, s));
-                } else {
-                    let idx = rng.below(e.outs.len() as u64);
-                    let out = e.outs[idx as usize].as_l();
-                    let (o, a, s) = if out.len() == 4 {
-                        (out[1].as_u64(), out[2].as_u64(), out[3].as_u64())
-                    } else {
-                        (1, 10, 1)
-                    };
-                    ins.push(coin_input(rng, e.id, idx, o, a, s));
-                }
-            }
-            14 | 15 => {
-                let nonce = rng.range(1, 4);
+            70..=79 => {
+                let nonce = if rng.chance(1, 8) { 3 } else { rng.range(1, 2) };
                 let amount: u64 = if rng.chance(1, 12) { 6 } else { 5 };
                 ins.push(T::l(vec![T::i(1), T::n(nonce), T::n(amount)]));
             }
-            16 | 17 | 18 => ins.push(T::l(vec![T::i(2), T::n(rng.range(1, 6))])),
+            80..=96 => {
+                let cid = if rng.chance(1, 3) { rng.range(3, 5) } else { rng.range(1, 2) };
+                ins.push(T::l(vec![T::i(2), T::n(cid)]));
+            }
             _ => ins.push(coin_input(rng, 999, 0, 1, 10, 1)),
         }
     }
@@ -136,7 +155,7 @@ fn gen_tx(rng: &mut Rng, id: u64, earlier: &[Tx]) -> Tx {
     }
     let ins = uniq;
     let mut outs: Vec<T> = vec![];
-    let n_out = rng.below(4);
+    let n_out = if rng.chance(1, 6) { 0 } else { rng.range(1, 3) };
     for _ in 0..n_out {
         let oas = |rng: &mut Rng, k: i128| {
             T::l(vec![T::i(k), T::n(rng.range(1, 2)), T::n(10 * rng.range(1, 2)), T::n(1u64)])
@@ -156,9 +175,9 @@ fn gen_tx(rng: &mut Rng, id: u64, earlier: &[Tx]) -> Tx {
         id,
         ins,
         outs,
-        blob: if rng.chance(1, 10) { Some(rng.range(1, 3)) } else { None },
+        blob: if rng.chance(1, 10) { Some(if rng.chance(1, 8) { 3 } else { rng.range(1, 2) }) } else { None },
         tip: rng.below(21),
-        gas: if rng.chance(1, 40) { 0 } else { rng.range(1, 10) },
+        gas: if rng.chance(1, 60) { 0 } else { rng.range(1, 10) },
         price: rng.below(4),
         size: rng.range(1, 10),
     }
@@ -209,7 +228,7 @@ fn gen_case(rng: &mut Rng, long: bool) -> T {
         T::list_n(&[3u64]),
         T::list_n(&[50u64]),
     ]);
-    let n_tx = rng.range(4, if long { 16 } else { 11 });
+    let n_tx = rng.range(5, if long { 18 } else { 13 });
     let mut table: Vec<Tx> = vec![];
     for k in 0..n_tx {
         // id 50 is already committed in the database
@@ -220,13 +239,15 @@ fn gen_case(rng: &mut Rng, long: bool) -> T {
         let t = gen_tx(rng, id, &table);
         table.push(t);
     }
-    let n_ops = rng.range(6, if long { 45 } else { 28 });
+    let n_ops = rng.range(8, if long { 50 } else { 32 });
     let mut ops = vec![];
     let mut height = h0 + 1;
     let mut next_insert = 0usize;
     let mut touched: Vec<u64> = vec![];
     // ids already included in a block or preconfirmed: a transaction is only committed after its parents
     let mut committed: Vec<u64> = vec![];
+    // (height, id) of preconfirmations not yet reconciled with a block
+    let mut tentative: Vec<(u64, u64)> = vec![];
     for _ in 0..n_ops {
         match rng.below(100) {
             0..=54 => {
@@ -239,19 +260,19 @@ fn gen_case(rng: &mut Rng, long: bool) -> T {
                 touched.push(table[idx].id);
                 ops.push(T::l(vec![T::i(0), T::n(idx as u64)]));
             }
-            55..=69 => {
+            55..=66 => {
                 let zero = rng.below(12);
                 let ex: Vec<u64> = if rng.chance(1, 4) { vec![rng.range(1, 5)] } else { vec![] };
                 ops.push(T::l(vec![
                     T::i(1),
                     T::n(if rng.chance(1, 4) { rng.range(1, 3) } else { 0 }),
-                    T::n(if zero == 0 { 0 } else if rng.chance(1, 3) { rng.range(1, 15) } else { 1000 }),
-                    T::n(if zero == 1 { 0 } else if rng.chance(1, 3) { rng.range(1, 3) } else { 100 }),
+                    T::n(if zero == 0 { 0 } else if rng.chance(1, 2) { rng.range(1, 15) } else { 1000 }),
+                    T::n(if zero == 1 { 0 } else if rng.chance(1, 2) { rng.range(1, 3) } else { 100 }),
                     T::n(if zero == 2 { 0 } else if rng.chance(1, 3) { rng.range(1, 15) } else { 1000 }),
                     T::list_n(&ex),
                 ]));
             }
-            70..=79 => {
+            67..=79 => {
                 // block: ids among the touched transactions (plus an unknown one), never a
                 // transaction together with one of its static descendants, and few enough
                 // keys for the iteration order to stay visible in the LRU
@@ -300,6 +321,13 @@ fn gen_case(rng: &mut Rng, long: bool) -> T {
                         }
                     }
                 }
+                // preconfirmations up to this height that the block omits are rolled back
+                for (ph, pid) in tentative.clone() {
+                    if ph <= h && !ids.contains(&pid) {
+                        committed.retain(|c| *c != pid);
+                    }
+                }
+                tentative.retain(|(ph, _)| *ph > h);
                 committed.extend(ids.iter().copied());
                 canon = canon.max(h);
                 ops.push(T::l(vec![T::i(2), T::n(h), T::list_n(&ids)]));
@@ -322,6 +350,7 @@ fn gen_case(rng: &mut Rng, long: bool) -> T {
                 };
                 if kind != 2 && h > canon {
                     committed.push(id);
+                    tentative.push((h, id));
                 }
                 let outs = if rng.chance(1, 2) {
                     T::l(vec![])
